@@ -46,6 +46,9 @@ pub struct GenCfg {
   pub over_report: bool,
   /// Bottom-up sessions may start with top-down requires and may contain a second bottom-up build.
   pub mixed_sessions: bool,
+  /// Bottom-up reports are arbitrary (possibly incomplete) subsets: only what is built afterwards in *other* sessions is
+  /// judged (C01: 'whatever was built before on the same Pie instance').
+  pub arbitrary_reports: bool,
   /// Programs whose tasks may fail still get bottom-up builds (only C20's no-spurious-abort oracle judges those).
   pub bu_with_task_panics: bool,
 }
@@ -57,7 +60,7 @@ impl GenCfg {
       rchks: RCHKS.to_vec(), ochks: OCHKS.to_vec(), wchks: vec![RChk::Exact],
       faulty: false, multi_access: true, bottom_up: false, dyn_targets: true, written_to: true,
       bottom_up_weight: 3, wide: false, exact_share: 3, fault_steps: false, panic_steps: false, multi_checker_share: 0, multi_checker: false, task_panic_share: 0, panicky: false,
-      over_report: false, mixed_sessions: false, bu_with_task_panics: false,
+      over_report: false, mixed_sessions: false, bu_with_task_panics: false, arbitrary_reports: false,
     }
   }
   pub fn thorough() -> Self {
@@ -543,6 +546,11 @@ pub fn build_history(g: &Genome, prog: &Program, cfg: &GenCfg) -> History {
         }
         let mut report = std::mem::take(&mut pending);
         if rd.chance(1, 2) { report.reverse(); }
+        if cfg.arbitrary_reports && rd.chance(2, 3) {
+          // Drop some changed resources from the report (they stay unreported for good) and maybe add unrelated ones.
+          let keep = rd.next();
+          report = report.into_iter().enumerate().filter(|(i, _)| keep & (1 << (i % 16)) != 0).map(|(_, r)| r).collect();
+        }
         let n_then = rd.pick(3);
         let then = (0..n_then).map(|_| rd.pick(n_tasks) as TaskId).collect();
         let mut builds = vec![];
